@@ -9,7 +9,7 @@ from ..flow import Flow
 from ..model import AnalysisError, Cls, Func, Program, walk_own
 from ..report import Report
 from ..resolve import Scope, const_value, dotted, kwarg
-from ..util import calls_in, returns_of, src
+from ..util import assigned_value, calls_in, returns_of, src
 
 OWN_MOD = "windpyutils.parallel.own_proc_pools"
 
@@ -243,8 +243,7 @@ class _Chunking(Client):
                     self.problems.append((node.lineno, f"`{src(node)}` drops accumulated elements that were never yielded"))
                 return (("E", app),)
         if kind == "store" and isinstance(node, ast.Name) and node.id == self.acc:
-            st = getattr(node, "_parent", None)
-            val = st.value if isinstance(st, ast.Assign) else None
+            val = assigned_value(node)
             fresh = isinstance(val, (ast.List, ast.ListComp)) or (isinstance(val, ast.Call) and src(val.func) in ("list", "tuple"))
             if isinstance(val, ast.List) and val.elts:
                 fresh = False
